@@ -56,3 +56,7 @@ package rcall
 
 //@ func ToGraphviz
 //@ ensures result == "digraph G {\n" + chain + "}\n"
+
+//@ func escapeStr
+//@ pure
+//@ ensures result == Esc(name)
